@@ -83,8 +83,22 @@ def SeqSt.updateBest (st : SeqSt S) (o : DDOut S) : SeqSt S :=
   | some w => if w > st.bestLb then { st with bestLb := w, bestSol := o.bestExactSol } else st
   | none => st
 
-/-- `enqueue_cutset(ub)`: cap by the parent's bound, keep what still beats the incumbent -/
-def SeqSt.enqueue (dedup : Bool) (st : SeqSt S) (nodeUb : Int) (cs : List (SubP S)) : SeqSt S :=
+/-- `enqueue_cutset()`: keep what still beats the incumbent.  A cut-set node is pushed with the bound its own diagram gave
+    it (repair of finding D14: the bound is **not** capped by the bound of the sub-problem just processed). -/
+def SeqSt.enqueue (dedup : Bool) (st : SeqSt S) (cs : List (SubP S)) : SeqSt S :=
+  cs.foldl (fun st c =>
+    if c.ub > st.bestLb then
+      let fr := pushSpec dedup st.fringe c
+      let delta := fr.length - st.fringe.length
+      match bumpLayer st.openByLayer c.depth delta with
+      | some l => { st with fringe := fr, openByLayer := l }
+      | none => { st with fringe := fr, crashed := true }
+    else st) st
+
+/-- **pre-fix** `enqueue_cutset(ub)` (before the repair of D14): cap by the parent's bound
+    (`cutset_node.ub = ub.min(cutset_node.ub)`), keep what still beats the incumbent.  Kept as a named definition for the
+    D14 witnesses (`Ddo.C09.anyOrderOpt_false`, `Ddo.C09.Layered.Counter.*`). -/
+def SeqSt.enqueueCapped (dedup : Bool) (st : SeqSt S) (nodeUb : Int) (cs : List (SubP S)) : SeqSt S :=
   cs.foldl (fun st c =>
     let c' := { c with ub := min nodeUb c.ub }
     if c'.ub > st.bestLb then
@@ -115,13 +129,35 @@ def SeqSt.process (dedup : Bool) (st : SeqSt S) (node : SubP S) (mustExplore : B
         | .cutoff => (st.abortSearch, 2)
         | .ok x =>
           let st := st.updateBest x
-          if x.isExact then (st, 2) else (st.enqueue dedup node.ub x.cutset, 2)
+          if x.isExact then (st, 2) else (st.enqueue dedup x.cutset, 2)
 
-/-- the part of `get_workload` after a successful pop of `nn` (already removed from `fringe`) -/
+/-- **pre-fix** `process_one_node(node)`: `SeqSt.process` with the capped `enqueue_cutset(node.ub)`.  (The pre-fix variants
+    share `SeqSt.afterPop` with the repaired solver: the pre-fix code wrote `best_ub = nn.ub` at a pop, a field the solver never
+    reads; for best-first pops of the capped solver the popped bounds are non-increasing, so both formulas report the same
+    bound — `Ddo.C09.Layered.Rise.bestub_capped`.) -/
+def SeqSt.processCapped (dedup : Bool) (st : SeqSt S) (node : SubP S) (mustExplore : Bool) (r x : DDRes S) : SeqSt S × Nat :=
+  if node.ub ≤ st.bestLb then (st, 0)
+  else if !mustExplore then (st, 0)
+  else
+    match r with
+    | .cutoff => (st.abortSearch, 1)
+    | .ok r =>
+      let st := st.updateBest r
+      if r.isExact then (st, 1)
+      else
+        match x with
+        | .cutoff => (st.abortSearch, 2)
+        | .ok x =>
+          let st := st.updateBest x
+          if x.isExact then (st, 2) else (st.enqueueCapped dedup node.ub x.cutset, 2)
+
+/-- the part of `get_workload` after a successful pop of `nn` (already removed from `fringe`): the reported upper bound is
+    the **running minimum** of the popped bounds (`self.best_ub = self.best_ub.min(nn.ub)`; without the cap of
+    `enqueue_cutset` the popped bounds themselves may rise, `Ddo.C09.Layered.Rise`) -/
 def SeqSt.afterPop (st : SeqSt S) (nn : SubP S) : SeqSt S :=
   match decLayer st.openByLayer nn.depth with
-  | some l => { st with explored := st.explored + 1, openByLayer := l, bestUb := nn.ub }
-  | none => { st with explored := st.explored + 1, bestUb := nn.ub, crashed := true }
+  | some l => { st with explored := st.explored + 1, openByLayer := l, bestUb := min st.bestUb nn.ub }
+  | none => { st with explored := st.explored + 1, bestUb := min st.bestUb nn.ub, crashed := true }
 
 /-- `get_workload` found the fringe empty -/
 def SeqSt.complete (st : SeqSt S) : SeqSt S := { st with bestUb := st.bestLb }
